@@ -174,6 +174,9 @@ func crashInventory(c *Ctx, r *Report, cfg crashCfg) crashStats {
 			var check func() (bool, string)
 			switch x := instr.(type) {
 			case *ssa.Panic:
+				if !x.Pos().IsValid() {
+					return // synthesised by go/ssa (select without matching case, etc.), not in the source
+				}
 				kind = "panic"
 				construct = c.exprAt(fn, x.Pos())
 				if construct == "" {
